@@ -28,6 +28,21 @@ fn inner() {
     p.kill().unwrap();
     let st = p.wait().unwrap();
     println!("STATUS {:?}", st);
+    // phase 1b: a child started as the leader of its own process group, with a helper in that group: the signals go to the child
+    // itself (its pid), not to the group
+    {
+        let mut g = Popen::create(&["sh", "-c", "(while :; do sleep 0.05; done) & trap 'echo TERM' TERM; echo ready; while :; do sleep 0.05; done"],
+                                  PopenConfig { stdout: Redirection::Pipe, setpgid: true, ..Default::default() }).unwrap();
+        println!("GROUPCHILD {}", g.pid().unwrap());
+        let gpid = g.pid().unwrap();
+        let mut rd = BufReader::new(g.stdout.take().unwrap());
+        let mut l = String::new();
+        rd.read_line(&mut l).unwrap();
+        g.terminate().unwrap(); expect_line(&mut rd, "TERM");
+        g.kill().unwrap();
+        println!("GROUPSTATUS {:?}", g.wait().unwrap());
+        unsafe { libc::kill(-(gpid as i32), libc::SIGKILL); }     // the scenario itself clears away the helper (a call made by the scenario, filtered below)
+    }
     marker();
     // phase 2: nothing may be sent any more
     println!("AFTER-KILLED {:?} {:?} {:?}", p.terminate().is_ok(), p.kill().is_ok(), p.send_signal(libc::SIGUSR1).is_ok());
@@ -76,13 +91,18 @@ fn main() {
         let want = ["SIGTERM", "SIGUSR1", "SIGHUP", "SIGINT", "SIGKILL"];
         let to_child: Vec<&&&str> = phase1.iter().filter(|l| l.contains(&format!("kill({},", children[0]))).collect();
         if to_child.len() != want.len() || to_child.iter().zip(want.iter()).any(|(l, w)| !l.contains(w)) { fail(format!("signals sent to the live child: {:?}; expected exactly {:?} in this order", to_child, want)); }
-        let stray: Vec<&&&str> = phase1.iter().filter(|l| !l.contains(&format!("kill({},", children[0]))).collect();
+        let gchild = out.lines().find(|l| l.starts_with("GROUPCHILD ")).map(|l| l[11..].trim().to_string()).unwrap_or_default();
+        let to_g: Vec<&&&str> = phase1.iter().filter(|l| l.contains(&format!("kill({},", gchild))).collect();
+        if to_g.len() != 2 || !to_g[0].contains("SIGTERM") || !to_g[1].contains("SIGKILL") { fail(format!("signals sent to the child that leads its own process group: {:?}; expected exactly SIGTERM and SIGKILL to pid {}", to_g, gchild)); }
+        if !out.contains("GROUPSTATUS Signaled(9)") { fail("kill() did not end the group-leading child with SIGKILL".into()); }
+        let cleanup = format!("kill(-{}, SIGKILL)", gchild);
+        let stray: Vec<&&&str> = phase1.iter().filter(|l| !l.contains(&format!("kill({},", children[0])) && !l.contains(&format!("kill({},", gchild)) && !l.contains(&cleanup)).collect();
         if !stray.is_empty() { fail(format!("signals sent to something other than the child: {:?}", stray)); }
         // phase 2: nothing
         let after: Vec<&&str> = lib_calls[marks[0] + 1..marks[1]].iter().collect();
         if !after.is_empty() { fail(format!("signals sent after the child's end had been observed: {:?}", after)); }
     }
-    println!("5 children checked, {} mismatches", bad);
+    println!("6 children checked, {} mismatches", bad);
     if bad > 0 { std::process::exit(1); }
     println!("ok");
 }
